@@ -539,7 +539,7 @@ theorem open_repaired (c : Cfg) (hc : GoodR c.r) (ht : c.truncatesTornTail = tru
           cases hs : c.r.shortFileIsEmpty <;> simp [loadEntries, loadFile, headerOf_file, hd, hl2, hs]
       refine ⟨[], _, createOps .main nl, ?_, fresh d htemp, rfl, rfl, by simp, ?_⟩
       · by_cases h64 : g.length < 64
-        · simp [openWriter, Disk.get, hg, headerOf_short g h64, ht]
+        · simp [openWriter, Disk.get, hg, headerOf_short g h64, ht, h64]
         · have hfh : fhCells nl <+: g := by
             apply List.prefix_of_prefix_length_le _ hpre (by simp; omega)
             simp only [fileCells, List.append_assoc]; exact List.prefix_append _ _
